@@ -66,7 +66,7 @@ type cliRun struct {
 	Stdout []byte // raw standard output (stream data in stdout mode)
 	// TimedOut: the harness killed the run after 15 minutes of wall time
 	TimedOut bool
-	Trace  []string
+	Trace    []string
 }
 
 func runCLI(cli string, dir string, args []string, env map[string]string, stdin []byte) cliRun {
